@@ -354,6 +354,9 @@ class EditDistance(SequenceEdit):
                     pass
                 assert self.is_complete()
                 if self.__edits is None:
+                    # Every cell was fully tightened when its diagonal was built, except for the last one:
+                    while self.edit_matrix[-1][-1].tighten_bounds():
+                        pass
                     assert len(self.edit_matrix) == len(self.to_seq) + 1
                     assert len(self.edit_matrix[0]) == len(self.from_seq) + 1
                     row, col = len(self.to_seq), len(self.from_seq)
